@@ -313,6 +313,12 @@ class CtxDriver(explore.Driver):
             self._ref_cache[key] = probes(f.reg)
         return self._ref_cache[key]
 
+    def outcome_oracle(self, acc, s, hist, outs):
+        # failed activations must have raised (checked on every transition, also when nothing changed)
+        last = hist[-1]
+        if is_failing(last) and outs[-1][0] == "ok" and outs[-1] != ["ok", "fault-not-reached"]:
+            acc.violation(["atomicity", "enable_contexts", "failing-activation-did-not-raise", "failing-" + last[0]], {"history": [list(e) for e in hist], "outcomes": outs}, "an exception", outs[-1])
+
     def oracle(self, acc, s, hist, outs):
         if self._pristine_snap is None:
             p = Sys()
@@ -321,9 +327,6 @@ class CtxDriver(explore.Driver):
         last = hist[-1] if hist else ("init",)
         lkind = last[0] if not is_failing(last) else ("failing-" + last[0])
         case = {"history": [list(e) for e in hist], "outcomes": outs}
-        # (1) failed activations must have raised
-        if hist and is_failing(last) and outs[-1][0] == "ok" and outs[-1] != ["ok", "fault-not-reached"]:
-            acc.violation(["atomicity", "enable_contexts", "failing-activation-did-not-raise", lkind], case, "an exception", outs[-1])
         # (2) the whole observation vector equals that of a fresh registry with the reference stack
         want = self.reference_obs(s.model, s.defined)
         got = probes(s.reg)
